@@ -114,7 +114,7 @@ def run(run, replay=None):
         n += 1
     run.sample({'attributes': ATTRS, 'values': [repr(v) for v in VALUES]})
     run.sample({'equality_history': [(e['k'], e['name'] or e['sec'], e['eq']) for e in traces[-1]['ev'] if e['k'] in ('cmp', 'set', 'mut', 'opt')]})
-    can = _dcommon.dom_canaries(traces, rng)
+    can = run.tolerant(lambda: _dcommon.dom_canaries(traces, rng))
     run.judge('Trace_Dom', traces + can, cat.tables(), canary_ids=[c['id'] for c in can],
               describe=lambda tr: [(e['k'], e['ci'], e['fi'], e['name'], e['val']['t'], e['ok'], e['eq']) for e in tr['ev']][-6:])
     return run.finish(
